@@ -13,7 +13,7 @@ def main() -> int:
     from vf.core import engine
 
     ctx = engine.Ctx(**job["ctx"])
-    out = engine._run_shard(job["modname"], job["shard"], ctx)
+    out = engine._run_shard(job["modname"], job["shard"], ctx, job.get("only"))
     json.dump(out, open(sys.argv[2], "w"), default=engine._json_default)
     return 0
 
